@@ -39,23 +39,29 @@
 //@ fn Hashdh::search
 //@   requires(HASH_WF(this) && g_data_len <= 300000 && len <= 100000 && len <= g_data_len && len == g_query_len && __CPROVER_r_ok(this->data, g_data_len) && (len == 0 || __CPROVER_r_ok(w, len)))
 //@   ensures(RET == (size_t)-1 || RET < g_ones)
-//@   assigns(g_acc_idx, g_acc_val)
-//@   loop 1: assigns(i, next, g_acc_idx, g_acc_val)
-//@   loop 1: invariant(1 <= i && i <= this->tsize)
+//@   requires(g_nacc == 0)
+//@   ensures(RET == (size_t)-1 ==> (!g_acc_val || g_nacc == this->tsize))
+//@   assigns(g_nacc, g_acc_idx, g_acc_val)
+//@   loop 1: assigns(i, next, g_nacc, g_acc_idx, g_acc_val)
+//@   loop 1: invariant(g_nacc == i && 1 <= i && i <= this->tsize)
 //@   loop 1: decreases(this->tsize - i)
 //@ fn HashBdh::search tu=Hash/HashBdh.cpp
 //@   requires(HASH_WF(this) && g_data_len <= 300000 && len <= 100000 && len <= g_data_len && len == g_query_len && __CPROVER_r_ok(this->data, g_data_len) && (len == 0 || __CPROVER_r_ok(w, len)))
 //@   ensures(RET == (size_t)-1 || RET < g_ones)
-//@   assigns(g_acc_idx, g_acc_val)
-//@   loop 1: assigns(i, hval, pos, g_acc_idx, g_acc_val)
-//@   loop 1: invariant(1 <= i && i <= this->tsize && hval < this->tsize)
+//@   requires(g_nacc == 0)
+//@   ensures(RET == (size_t)-1 ==> (!g_acc_val || g_nacc == this->tsize))
+//@   assigns(g_nacc, g_acc_idx, g_acc_val)
+//@   loop 1: assigns(i, hval, pos, g_nacc, g_acc_idx, g_acc_val)
+//@   loop 1: invariant(g_nacc == i && 1 <= i && i <= this->tsize && hval < this->tsize)
 //@   loop 1: decreases(this->tsize - i)
 //@ fn HashBBdh::search tu=Hash/HashBBdh.cpp
 //@   requires(HASH_WF(this) && g_data_len <= 300000 && len <= 100000 && len <= g_data_len && len == g_query_len && __CPROVER_r_ok(this->data, g_data_len) && (len == 0 || __CPROVER_r_ok(w, len)))
 //@   ensures(RET == (size_t)-1 || RET < g_ones)
-//@   assigns(g_acc_idx, g_acc_val)
-//@   loop 1: assigns(i, hval, pos, off_pos, g_acc_idx, g_acc_val)
-//@   loop 1: invariant(1 <= i && i <= this->tsize && hval < this->tsize)
+//@   requires(g_nacc == 0)
+//@   ensures(RET == (size_t)-1 ==> (!g_acc_val || g_nacc == this->tsize))
+//@   assigns(g_nacc, g_acc_idx, g_acc_val)
+//@   loop 1: assigns(i, hval, pos, off_pos, g_nacc, g_acc_idx, g_acc_val)
+//@   loop 1: invariant(g_nacc == i && 1 <= i && i <= this->tsize && hval < this->tsize)
 //@   loop 1: decreases(this->tsize - i)
 //@ fn HashBdh::load tu=Hash/HashBdh.cpp
 //@   requires(g_set_cnt == 0 && g_ones <= 100000 && __CPROVER_rw_ok(fp, sizeof(*fp)) && fp->pos == 0 && fp->cap == 64 && __CPROVER_r_ok(fp->buf, 64))
@@ -81,7 +87,7 @@
 #define TSMAX ((size_t)1 << 24)
 /* ghosts of the interface contracts */
 size_t g_ones;            /* number of set bits of the table bitmap == number of stored strings */
-size_t g_acc_idx; bool g_acc_val;   /* last access(i) query and its answer */
+size_t g_nacc; /* ghost: number of table cells inspected so far */ size_t g_acc_idx; bool g_acc_val;   /* last access(i) query and its answer */
 size_t g_data_len, g_query_len;
 size_t g_set_cnt, g_set_last;       /* setField calls on the rebuilt table: how many, last position */
 LogSequence *g_new_hash, *g_seq; BitSequence *g_bits; size_t g_new_entries;
@@ -89,7 +95,7 @@ LogSequence *g_new_hash, *g_seq; BitSequence *g_bits; size_t g_new_entries;
 #define HASH_WF(h) (__CPROVER_r_ok((h), sizeof(*(h))) && (h)->tsize >= 1 && (h)->tsize <= TSMAX && (h)->n == g_ones && g_ones <= (h)->tsize)
 /* TRUSTED: interface contract of BitSequence::access / rank1 / select1 on the table bitmap (length tsize, g_ones set bits): rank1(i) <= i+1, <= ones, >= 1 if bit i is set. Discharged for BitSequenceRG in unit rg (bounded). */
 bool BitSequence__access(BitSequence *this, size_t i)
-__CPROVER_requires(i < TSMAX) __CPROVER_ensures(g_acc_idx == i && g_acc_val == RET) __CPROVER_assigns(g_acc_idx, g_acc_val);
+__CPROVER_requires(i < TSMAX) __CPROVER_ensures(g_acc_idx == i && g_acc_val == RET && g_nacc == OLD(g_nacc) + 1) __CPROVER_assigns(g_acc_idx, g_acc_val, g_nacc);
 size_t BitSequence__rank1(BitSequence *this, size_t i)
 __CPROVER_requires(i < TSMAX) __CPROVER_ensures(RET <= i + 1 && RET <= g_ones && ((g_acc_idx == i && g_acc_val) ==> RET >= 1)) __CPROVER_assigns();
 size_t BitSequence__select1(BitSequence *this, size_t i)
